@@ -56,13 +56,14 @@ Definition accepted_bits (y : replica) (ops : list op) : string :=
 Definition answer (y : replica) (ops : list op) (groups : list N) : string :=
   "acc=" ++ accepted_bits y ops ++ " " ++ show_list (show_group y) " " groups.
 
-(** Which model describes the history: the proved one ([run], StrongRemove filter empty), the
-    transcription of the filter ([run_r]), or none (mutual-remove cycles possible). *)
+(** Which model describes the history: the proved one ([run], StrongRemove filter empty and no
+    nested-group cycle possible), the transcription of the filter and of the nested-group cycle
+    check ([run_r]), or none (mutual-remove cycles possible). *)
 Definition model_line (ops : list op) (groups : list N) : string :=
   if mutual_possible ops then "UNMODELLED"
   else
     let b := answer (run_r ops) ops groups in
-    if plain_history ops then
+    if plain_history ops && negb (cycle_prone ops) then
       let a := answer (run ops) ops groups in
       if String.eqb a b then "A " ++ a else "MODELS-DIFFER " ++ a ++ " <> " ++ b
     else "B " ++ b.
